@@ -26,6 +26,13 @@ def plan(tier, seed):
             'catch': catch, 'expired': bool(eff and extra > 0),
             'pool_hard': rng.choice([None, 30.0]), 'job_hard': rng.choice([None, 30.0]),
             'next_dur': 1.5, 'next_soft': None}})
+    for (ps, js) in ((1.0, None), (None, 1.0)) if tier == 'quick' else \
+            ((1.0, None), (None, 1.0), (2.0, 1.0), (1.0, 2.0)):
+        eff = js if js is not None else ps
+        specs.append({'lane': 'real', 'timeout': 110, 'params': {
+            'nproc': 2, 'pool_soft': ps, 'job_soft': js, 'eff_soft': eff, 'dur': eff + 4.6,
+            'catch': True, 'expired': True, 'pool_hard': None, 'job_hard': None,
+            'next_dur': 0.3, 'next_soft': None, 'close_while_running': True}})
     return specs
 
 
@@ -38,6 +45,7 @@ def run_spec(spec, rec):
     rec.case()
     rec.count('real:scenarios')
     attrs = {'lane': 'real', 'catch': p['catch'], 'expired': p['expired'], 'nproc': p['nproc'],
+             'closing': bool(p.get('close_while_running')),
              'pool_soft': p['pool_soft'] is not None, 'job_soft': p['job_soft'] is not None}
     if r['status'] != 'ok':
         rec.violation('host_process_died' if r['status'] == 'died' else 'pool_hung_with_soft_limit',
